@@ -90,3 +90,23 @@ HARNESS(h_run_fetch)
 #endif
     OUT(st); ABSMEM_OUT(); OUT(verif_outcome); CANARY();
 }
+
+/* the same fetch facts on two concrete straight-line instructions, stated over registers only, so that a counterexample replays on the
+ * real interpreter: nop (one word) and `mov ##imm16, r0` (two words: word 0x5E00 + operand). */
+HARNESS(h_run_fetch_concrete)
+{
+    INTERP_RIG(it, st); ABSMEM_SETUP(); NONDET(bool, two); NORM_BOOL(two);
+    for (int i = 0; i < 3; i++) it.interrupt_pending.e[i] = 0;
+    it.vinterrupt_pending = 0; it.vinterrupt_address = 0; it.vinterrupt_context_switch = 0;
+    NATIVE_ONLY(st.rep = 0; st.lp = 0; st.bcn = 0; st.ie = 0; st.pc &= 0x3FFFF;)
+    ASSUME(!st.rep && !st.lp && !st.ie && st.pc + 2 < 0x40000);
+    u32 pc0 = st.pc, page = (u32)st.prpage << 18;
+    NATIVE_ONLY(am_prog_store[(pc0 | page) & 0x3FFFF] = two ? 0x5E00 : 0x0000;)
+    ASSUME(am_ppeek(pc0 | page) == (two ? 0x5E00 : 0x0000));
+    u16 operand = am_ppeek((pc0 + 1) | page);
+    Interpreter_Run(&it, 1);
+    CHECK(st.pc == pc0 + 1 + two, "pc advances by the instruction's length (1 for nop, 2 for mov ##imm16, r0)");
+    CBMC_ONLY(CHECK(c02_rec.calls == 1 && c02_rec.expansion == (two ? operand : 0), "the operand word is what the handler receives");)
+    NATIVE_ONLY(CHECK(!two || st.r.e[0] == operand, "mov ##imm16, r0 loads the word after the opcode");)
+    OUT(st); CANARY();
+}
